@@ -4,6 +4,8 @@ Property theorems over `LA.Lnk` (model of archive_entry_link_resolver.c).
 Helper lemmas live in `LA/Lemmas/Lnk.lean`.
 -/
 import LA.Lemmas.Lnk
+import LA.Lemmas.LnkHash
+import LA.Gen.Limits
 set_option linter.unusedSimpArgs false
 namespace LA.C17
 open LA.Lnk
@@ -920,5 +922,97 @@ theorem reachable_keys_nodup (st : Strategy) (ops : List Op) :
       cases h : takeNth (fun le => le.held.isNone) s.tbl k with
       | none => exact h0
       | some r => exact takeNth_keys _ _ _ h0 r.1 r.2 h
+
+/-! ### The bucket layer under the flat table
+
+`State.tbl` is a flat list; the C keeps the records in `buckets[hash & (number_buckets - 1)]` and re-chains
+them in `grow_hash`.  These theorems instantiate `LA.LnkHash` (any record type, any hash) with the real record,
+the real hash `(size_t)(dev ^ ino)`, the extracted initial size, and the extracted shape of the three index
+computations: the bucket table is a container with exactly the flat list's contents after any insertion history
+(any number of growths), and the chain walk of `find_entry` finds every record that is in it. -/
+
+/-- `(size_t)(dev ^ ino)` on an LP64 target. -/
+def leHash (le : LE) : Nat :=
+  (le.dev % 18446744073709551616).toNat ^^^ (le.ino % 18446744073709551616).toNat
+
+/-- The table of `archive_entry_linkresolver_new`. -/
+def bucketsInit : LnkHash.HT LE := { nb := Gen.Limits.linksCacheInitialSize, bk := fun _ => [], n := 0 }
+
+/-- Source-shape obligations of the bucket model (regenerated from the C on every run): `find_entry` masks with
+the current `number_buckets - 1`; `insert_entry` tests `number_entries > number_buckets * 2`, grows *first* and
+computes the bucket index *afterwards*; `grow_hash` doubles, re-masks every record's stored hash with the new
+size, and publishes the new size. -/
+theorem bucket_source_shape :
+    Gen.Limits.findMasksCurrentSize = true ∧ Gen.Limits.insertGrowsBeforeIndex = true ∧
+    Gen.Limits.insertGrowthTest = "res->number_entries > res->number_buckets * 2" ∧
+    Gen.Limits.growDoublesAndRemasks = true := by decide
+
+theorem bucketsInit_wf : LnkHash.WF bucketsInit leHash :=
+  ⟨⟨10, by decide⟩, by intro i x hx; simp [bucketsInit] at hx⟩
+
+theorem bucketsInit_flat : bucketsInit.flat = [] := by
+  unfold LnkHash.HT.flat bucketsInit
+  simp only
+  generalize Gen.Limits.linksCacheInitialSize = n
+  induction n with
+  | zero => rfl
+  | succ n ih => simp [LnkHash.flatUpTo, ih]
+
+theorem eq_of_keysNodup (l : List LE) (hn : KeysNodup l) (a b : LE) (ha : a ∈ l) (hb : b ∈ l)
+    (h : (a.dev, a.ino) = (b.dev, b.ino)) : a = b := by
+  unfold KeysNodup at hn
+  induction l with
+  | nil => cases ha
+  | cons x xs ih =>
+    rw [List.map_cons, List.nodup_cons] at hn
+    rcases List.mem_cons.mp ha with rfl | ha' <;> rcases List.mem_cons.mp hb with rfl | hb'
+    · rfl
+    · exact absurd (List.mem_map.mpr ⟨b, hb', h.symm⟩) hn.1
+    · exact absurd (List.mem_map.mpr ⟨a, ha', h⟩) hn.1
+    · exact ih hn.2 ha' hb'
+
+/-- Whatever records are inserted, in whatever number (the table grows at 2049, 4097, … live records), the
+bucket table holds each of them exactly once. -/
+theorem buckets_no_loss_no_dup (les : List LE) :
+    (LnkHash.insertAll bucketsInit leHash les).flat.Perm les.reverse := by
+  have h := (LnkHash.insertAll_spec bucketsInit leHash les bucketsInit_wf).2
+  simpa [bucketsInit_flat] using h
+
+/-- …and the chain walk of `find_entry` reaches every one of them through its own (dev, ino): no record is
+stranded in a chain the lookup does not visit. -/
+theorem buckets_find_every_record (les : List LE) (le : LE) (hm : le ∈ les) :
+    ((LnkHash.insertAll bucketsInit leHash les).find leHash (fun x => x.hasKey le.dev le.ino) (leHash le)).isSome
+      = true := by
+  obtain ⟨hw, hp⟩ := LnkHash.insertAll_spec bucketsInit leHash les bucketsInit_wf
+  apply LnkHash.find_complete _ _ _ le hw
+  · exact hp.symm.subset (by simp [hm])
+  · simp [LE.hasKey]
+
+/-- With unique keys (`reachable_keys_nodup`) the walk returns exactly the flat model's `lookup`. -/
+theorem buckets_find_eq_lookup (les : List LE) (hn : KeysNodup les) (le : LE) (hm : le ∈ les) :
+    (LnkHash.insertAll bucketsInit leHash les).find leHash (fun x => x.hasKey le.dev le.ino) (leHash le)
+      = some le := by
+  obtain ⟨hw, hp⟩ := LnkHash.insertAll_spec bucketsInit leHash les bucketsInit_wf
+  apply LnkHash.find_unique _ _ _ le hw
+  · exact hp.symm.subset (by simp [hm])
+  · simp [LE.hasKey]
+  · intro y hy _ hk
+    have hy' : y ∈ les := by
+      have := hp.subset hy
+      simpa [bucketsInit_flat] using this
+    rw [hasKey_iff] at hk
+    -- two records of `les` with the same (dev, ino) are the same record
+    exact eq_of_keysNodup les hn y le hy' hm hk
+
+/-- Non-vacuity (the growth case itself is exercised in `Lemmas/LnkHash.lean` on a 2-bucket table): three
+records with negative and large keys in the initial table, the middle one is found. -/
+example : (LnkHash.insertAll bucketsInit leHash
+    [({ dev := -1, ino := 7, canon := 1, held := none, links := 1 } : LE),
+     { dev := 5, ino := 4611686018427387904, canon := 2, held := none, links := 2 },
+     { dev := 0, ino := 1031, canon := 3, held := none, links := 1 }]).find leHash
+      (fun x => x.hasKey 5 4611686018427387904)
+      (leHash { dev := 5, ino := 4611686018427387904, canon := 2, held := none, links := 2 })
+    = some { dev := 5, ino := 4611686018427387904, canon := 2, held := none, links := 2 } := by
+  decide +kernel
 
 end LA.C17
